@@ -542,3 +542,75 @@ Theorem C02_parse_render_12h_DMonDY_T12HMS_sp : forall d o df cy loc n0 n1 yf ig
   = OutOk (expected_dt (TDT DMonDY JSpace (T12HMS true) ONone) d df) ZNaive 0 false [].
 Proof. exact parse_render_12h_DMonDY_T12HMS_sp. Qed.
 Print Assumptions C02_parse_render_12h_DMonDY_T12HMS_sp.
+
+(* ---- Z / " UTC" / " GMT" after month-name and comma date-times (rd builder; parse/RenderXUtcN_*.v,
+   RenderXUtcC_*.v, collected in RenderXUtcAll.v); guard 100 <= year (F-C02-padyear) *)
+From V Require Import parse.RenderXUtcAll.
+
+Theorem C02_parse_render_word_utc : forall f tf ofm d o df cy loc n0 n1 yf ig,
+  In f x_word_dforms -> In tf x_tforms -> In ofm x_utc_oforms ->
+  valid_dt d = true -> valid_dt df = true -> 100 <= d_y d ->
+  smem [85; 84; 67] loc = false -> smem [71; 77; 84] loc = false ->
+  parse (opts_df0 yf ig df cy loc n0 n1) (render (TDT f JSpace tf ofm) d o)
+  = OutOk (expected_dt (TDT f JSpace tf ofm) d df) (if ig then ZNaive else ZUTC) 0 false [].
+Proof. exact parse_render_word_utc_lemma. Qed.
+Print Assumptions C02_parse_render_word_utc.
+
+(* ---- helper rdalg (round 4): template theorems proved in coq/parse/RenderX*.v, LexSegX.v ---- *)
+From V Require Import parse.LexSeg parse.LexSeg2 parse.RenderTac parse.WordFacts parse.Render12Defs parse.RenderXTimeFrac parse.RenderX12Comma_DMonDY_T12HMS_nosp parse.RenderX12Comma_DMonthDY_T12HMS_sp parse.RenderX12Comma_DMonthDY_T12HMS_nosp parse.RenderX12Name_DDashMon parse.RenderX12Name_DDMonY.
+
+Theorem C02_parse_render_time_frac : forall k comma d o df cy loc n0 n1 yf ig,
+  (1 <= k <= 9)%nat ->
+  valid_dt d = true -> valid_dt df = true ->
+  parse (opts_df0 yf ig df cy loc n0 n1) (render (TDT DNone JNone (TFrac k comma) ONone) d o)
+  = OutOk (expected_dt (TDT DNone JNone (TFrac k comma) ONone) d df) ZNaive 0 false [].
+Proof. exact parse_render_time_frac. Qed.
+Print Assumptions C02_parse_render_time_frac.
+
+Theorem C02_parse_render_12h_DMonDY_T12HMS_nosp : forall d o df cy loc n0 n1 yf ig,
+  valid_dt d = true -> valid_dt df = true -> 100 <= d_y d ->
+  parse (opts_df0 yf ig df cy loc n0 n1) (render (TDT DMonDY JSpace (T12HMS false) ONone) d o)
+  = OutOk (expected_dt (TDT DMonDY JSpace (T12HMS false) ONone) d df) ZNaive 0 false [].
+Proof. exact parse_render_12h_DMonDY_T12HMS_nosp. Qed.
+Print Assumptions C02_parse_render_12h_DMonDY_T12HMS_nosp.
+
+Theorem C02_parse_render_12h_DMonthDY_T12HMS_sp : forall d o df cy loc n0 n1 yf ig,
+  valid_dt d = true -> valid_dt df = true -> 100 <= d_y d ->
+  parse (opts_df0 yf ig df cy loc n0 n1) (render (TDT DMonthDY JSpace (T12HMS true) ONone) d o)
+  = OutOk (expected_dt (TDT DMonthDY JSpace (T12HMS true) ONone) d df) ZNaive 0 false [].
+Proof. exact parse_render_12h_DMonthDY_T12HMS_sp. Qed.
+Print Assumptions C02_parse_render_12h_DMonthDY_T12HMS_sp.
+
+Theorem C02_parse_render_12h_DMonthDY_T12HMS_nosp : forall d o df cy loc n0 n1 yf ig,
+  valid_dt d = true -> valid_dt df = true -> 100 <= d_y d ->
+  parse (opts_df0 yf ig df cy loc n0 n1) (render (TDT DMonthDY JSpace (T12HMS false) ONone) d o)
+  = OutOk (expected_dt (TDT DMonthDY JSpace (T12HMS false) ONone) d df) ZNaive 0 false [].
+Proof. exact parse_render_12h_DMonthDY_T12HMS_nosp. Qed.
+Print Assumptions C02_parse_render_12h_DMonthDY_T12HMS_nosp.
+
+Theorem C02_parse_render_12h_DDashMon_T12HM : forall spaced d o df cy loc n0 n1 yf ig,
+  valid_dt d = true -> valid_dt df = true ->
+  parse (opts_df0 yf ig df cy loc n0 n1) (render (TDT DDashMon JSpace (T12HM spaced) ONone) d o)
+  = OutOk (expected_dt (TDT DDashMon JSpace (T12HM spaced) ONone) d df) ZNaive 0 false [].
+Proof. exact parse_render_12h_DDashMon_T12HM. Qed.
+Print Assumptions C02_parse_render_12h_DDashMon_T12HM.
+
+Theorem C02_parse_render_12h_DDMonY_T12HM : forall spaced d o df cy loc n0 n1 yf ig,
+  valid_dt d = true -> valid_dt df = true -> 100 <= d_y d ->
+  parse (opts_df0 yf ig df cy loc n0 n1) (render (TDT DDMonY JSpace (T12HM spaced) ONone) d o)
+  = OutOk (expected_dt (TDT DDMonY JSpace (T12HM spaced) ONone) d df) ZNaive 0 false [].
+Proof. exact parse_render_12h_DDMonY_T12HM. Qed.
+Print Assumptions C02_parse_render_12h_DDMonY_T12HM.
+
+(* builder: `Z` under a process time zone whose time.tzname contains "UTC" (TZ=UTC): local-name counterpart of
+   C02_parse_render_iso_utc / _iso_hm_utc for OZ *)
+From V Require Import parse.RenderLocal parse.RenderLocalZ.
+
+Theorem C02_parse_render_iso_z_local : forall j tf d o df cy loc n0 n1 yf ig,
+  In j plain_joiners -> In tf [THM; THMS] ->
+  valid_dt d = true -> valid_dt df = true ->
+  smem [85; 84; 67] loc = true ->
+  parse (opts_df0 yf ig df cy loc n0 n1) (render (TDT DIso j tf OZ) d o)
+  = OutOk (expected_dt (TDT DIso j tf OZ) d df) (fst (local_zone_res ig n0 n1)) (snd (local_zone_res ig n0 n1)) false [].
+Proof. exact parse_render_iso_z_local_lemma. Qed.
+Print Assumptions C02_parse_render_iso_z_local.
